@@ -51,6 +51,10 @@ FEATURE_MODELS = [
     # ties between 40-byte payloads that differ only beyond the first 32 bytes
     text(2, [9, 9], [9, 2, 9], P=5, K=12, H=5),
     text(3, [9, 1, 9], [2, 9, 9], P=0, K=5, M=1, H=5),
+    # zero-delay relay of an unchanged event (same type, same payload bytes) to another LP: content-equal events pending at once
+    text(3, [10, 10, 10], [0, 0, 10], P=5, K=30, H=3, C=2),
+    text(2, [10, 1], [1, 2, 10], P=0, K=6, H=4, C=1),
+    text(3, [10, 0, 0], [10, 10, 10], P=5, K=30, H=4, C=3),
     # RootsimStop from a handler
     text(2, [2, 2], [2, 2, 2], P=4, K=0, H=9, S=3),
     text(3, [7, 0, 0], [1, 2, 7], P=4, K=0, H=7, S=5),
